@@ -215,6 +215,7 @@ def run(body, start_bb, env, call=None, max_steps=400, prog=None, depth=0, inlin
     env = dict(env)
     bb = start_bb
     steps = 0
+    mutrefs = {}
 
     def place_val(pl):
         if pl["l"] not in env:
@@ -312,8 +313,17 @@ def run(body, start_bb, env, call=None, max_steps=400, prog=None, depth=0, inlin
             k = rv["k"]
             if k == "use":
                 v = operand(rv["op"])
+                src_ = rv["op"].get("move") or rv["op"].get("copy")
+                if src_ is not None and not src_["p"] and src_["l"] in mutrefs and not lhs["p"]:
+                    mutrefs[lhs["l"]] = mutrefs[src_["l"]]
             elif k in ("ref", "copyderef"):
                 v = place_val(rv["place"])
+                if k == "ref" and rv.get("mut") and not lhs["p"]:
+                    pl_ = rv["place"]
+                    if not pl_["p"]:
+                        mutrefs[lhs["l"]] = pl_["l"]
+                    elif pl_["p"] == ["*"] and pl_["l"] in mutrefs:
+                        mutrefs[lhs["l"]] = mutrefs[pl_["l"]]
             elif k == "cast":
                 v = operand(rv["op"])
                 if rv["kind"] not in ("IntToInt",) and not rv["kind"].startswith("PointerCoercion(Unsize"):
@@ -400,6 +410,21 @@ def run(body, start_bb, env, call=None, max_steps=400, prog=None, depth=0, inlin
             name = body.callee_name(t)
             args = [operand(a) for a in t["args"]]
             v = None
+            # `v.push(x)` / `v.extend(it)` on a local sequence value: the local now denotes the longer sequence
+            if t["args"] and name.split("::")[-1] in ("push", "extend") and ("alloc::vec::Vec" in name or "Extend" in name):
+                a0_ = t["args"][0].get("move") or t["args"][0].get("copy")
+                if a0_ is not None and not a0_["p"] and a0_["l"] in mutrefs and len(args) == 2:
+                    tgt_ = mutrefs[a0_["l"]]
+                    old_ = env.get(tgt_)
+                    if isinstance(old_, tuple) and old_[:1] in (("vec",), ("split",), ("chain",), ("once",), ("map",)):
+                        add_ = ("once", args[1]) if name.split("::")[-1] == "push" else args[1]
+                        if old_[0] == "vec" and name.split("::")[-1] == "push":
+                            env[tgt_] = ("vec", tuple(old_[1]) + (args[1],))
+                        elif old_ == ("vec", ()):
+                            env[tgt_] = add_
+                        else:
+                            env[tgt_] = ("chain", old_, add_)
+                        seq_updated = True
             if call is not None:
                 v = call(name, args, t)
             if v is None and prog is not None:
